@@ -133,6 +133,9 @@ HAND = [
                          "<xsl:for-each xmlns:x='http://xml.apache.org/xalan' select='x:nodeset($g)/a'><xsl:value-of select='.'/></xsl:for-each></xsl:template>"), SRC, '', ''),
     ('import-include-doc', ss("<xsl:import href='inc.xsl'/><xsl:template match='/'><xsl:value-of select='$incv'/><xsl:call-template name='inc'/>"
                               "<xsl:value-of select='document(\"doc.xml\")//item[@k=2]'/><xsl:apply-imports/><xsl:message>m</xsl:message></xsl:template>"), SRC, '', ''),
+    ('relative-hrefs', ss("<xsl:include href='../inc.xsl'/><xsl:template match='/'><xsl:value-of select='document(\"../doc.xml\")//item[@k=1]'/>"
+                          "<xsl:value-of select='document(\"./x/../../../doc.xml\")//item[@k=2]'/><xsl:value-of select='document(\"a/b/../../doc.xml#f?q\")/*/@id'/>"
+                          "<xsl:value-of select='count(document(\"\"))'/></xsl:template>"), SRC, '', ''),
     ('modes-priority', ss("<xsl:template match='item' mode='m' priority='2'>A</xsl:template><xsl:template match='item[1]' mode='m'>B</xsl:template>"
                           "<xsl:template match='/'><xsl:apply-templates select='//item' mode='m'><xsl:with-param name='w' select='1'/></xsl:apply-templates></xsl:template>"), SRC, '', ''),
     ('attrsets-alias', ss("<xsl:attribute-set name='s'><xsl:attribute name='k'>v</xsl:attribute></xsl:attribute-set>"
@@ -202,6 +205,9 @@ def seeds(outdir, samples='/repo/samples'):
         write('%s/%s/hand-enc-ascii' % (outdir, t), pack_transform(HAND[15][1], SRC, '', '', 2, 12 | 0x40))
         write('%s/%s/hand-param-number' % (outdir, t), pack_transform(HAND[1][1], SRC, 'p', '1e89', 8 | 0x20, 0))
         write('%s/%s/hand-param-cstr' % (outdir, t), pack_transform(HAND[1][1], SRC, 'p', "'a''b'", 8 | 0x10 | 1, 0))
+    rel = [h for h in HAND if h[0] == 'relative-hrefs'][0]
+    write('%s/fuzz_transform/hand-relative-hrefs-nosysid' % outdir, pack_transform(rel[1], SRC, '', '', 0, 0x40))
+    write('%s/fuzz_transform/hand-relative-hrefs-nosysid-compiled' % outdir, pack_transform(rel[1], SRC, '', '', 1, 0x40))
     # samples from the source tree: stylesheet + the foo.xml / birds.xml next to it (small ones only)
     for xsl in sorted(glob.glob(samples + '/*/*.xsl')):
         d = os.path.dirname(xsl)
